@@ -343,6 +343,7 @@ type c04Excl struct {
 	assoc       bool // C04-assoc-index: declare -A / typeset -A / local -A anywhere
 	unquoteWord bool // C04-unquote-param-word: [[ "${x<op>word}" … ]] where word has quote-sensitive characters
 	arithOrder  bool // C04-arith-expansion-order: inlined $x in an expression that also assigns x
+	powDollar   bool // C04-bash-unevaluated-pow: an inlinable $x inside the exponent of **
 	inlined     bool // some $x would be inlined (bash leg needs integer-valued variables)
 	nondet      bool // not an exclusion of a finding: constructs whose output is not deterministic
 	unsafe      bool // commands outside the whitelist: never executed
@@ -367,6 +368,8 @@ func (e c04Excl) bashSkip() string {
 		return "excl-unquote-word"
 	case e.arithOrder:
 		return "excl-arith-order"
+	case e.powDollar:
+		return "excl-pow-dollar"
 	}
 	return ""
 }
@@ -431,6 +434,14 @@ func c04ArithInfo(x syntax.ArithmExpr, dollars, assigned map[string]bool) {
 				dollars[nm] = true
 			}
 		case *syntax.BinaryArithm:
+			if n.Op == syntax.Pow || n.Op == syntax.PowAssgn {
+				syntax.Walk(n.Y, func(m syntax.Node) bool {
+					if w, ok := m.(*syntax.Word); ok && c04InlinableName(w) != "" {
+						assigned["**"] = true
+					}
+					return true
+				})
+			}
 			switch n.Op {
 			case syntax.Assgn, syntax.AddAssgn, syntax.SubAssgn, syntax.MulAssgn, syntax.QuoAssgn, syntax.RemAssgn,
 				syntax.AndAssgn, syntax.OrAssgn, syntax.XorAssgn, syntax.ShlAssgn, syntax.ShrAssgn,
@@ -487,6 +498,9 @@ func c04Classify(f *syntax.File) c04Excl {
 			if a[nm] || a["?"] {
 				e.arithOrder = true
 			}
+		}
+		if a["**"] {
+			e.powDollar = true
 		}
 	}
 	syntax.Walk(f, func(n syntax.Node) bool {
@@ -561,6 +575,9 @@ func c04Classify(f *syntax.File) c04Excl {
 				if a[nm] || a["?"] {
 					e.arithOrder = true
 				}
+			}
+			if a["**"] {
+				e.powDollar = true
 			}
 		case *syntax.Assign:
 			arithRoot(n.Index)
@@ -799,7 +816,7 @@ func c04Show(r ShellResult) string {
 // c04Behaviour executes the property's statement: same stdout and exit status.
 func c04Behaviour(c *Ctx, run *c04Run, known bool) c04RunRes {
 	var res c04RunRes
-	interpOK := run.interp && (known || run.skip == "" || run.skip == "excl-dq-in-quoted-param" || run.skip == "excl-unquote-word" || run.skip == "excl-arith-order" || run.skip == "excl-assoc")
+	interpOK := run.interp && (known || run.skip == "" || run.skip == "excl-dq-in-quoted-param" || run.skip == "excl-unquote-word" || run.skip == "excl-arith-order" || run.skip == "excl-assoc" || run.skip == "excl-pow-dollar")
 	// interp: the exclusions that are bash-only findings do not restrict the interp leg, except
 	// assoc (interp panics on its own there) — see c04Excl.
 	if run.skip == "excl-assoc" && !known {
@@ -984,9 +1001,13 @@ func (g *c04Gen) arith(d int, top bool) string {
 	case k == 8:
 		return r.Pick([]string{"z++", "z--", "++z", "--z"})
 	case k == 9:
+		if r.Chance(30) {
+			// ** only with a constant exponent (C04-bash-unevaluated-pow avoided)
+			return g.arith(d-1, false) + " ** " + r.Pick([]string{"0", "1", "2", "(3)", "c"})
+		}
 		return g.arith(d-1, false) + " " + r.Pick([]string{"/", "%"}) + " " + r.Pick([]string{"3", "7", "$c", "c", "(2)"})
 	default:
-		return g.arith(d-1, false) + " " + r.Pick([]string{"+", "-", "*", "<", ">", "<=", ">=", "==", "!=", "&&", "||", "&", "|", "^", "<<", ",", "**"}) + " " + g.arith(d-1, false)
+		return g.arith(d-1, false) + " " + r.Pick([]string{"+", "-", "*", "<", ">", "<=", ">=", "==", "!=", "&&", "||", "&", "|", "^", "<<", ","}) + " " + g.arith(d-1, false)
 	}
 }
 
@@ -1183,7 +1204,7 @@ func c04(c *Ctx) {
 		"non-trivial = Simplify changed the tree; distinct by exact source"
 	shellBudget := 60
 	if c.Thorough() {
-		shellBudget = 400
+		shellBudget = 120 // per shard
 	}
 	if c.N == 0 {
 		shellBudget = 1 << 30
